@@ -2,6 +2,7 @@
    the OCaml driver stays a dumb parser/printer. *)
 From Coq Require Import NArith List Bool String.
 From DBG Require Import Interop.Val Spec.Dna Packed.KmerModel Algo.KmerHist.
+From DBG Require Interop.DispatchFilter.
 Import ListNotations.
 Open Scope N_scope.
 
@@ -116,4 +117,5 @@ Definition prefix2 (op : string) : string := substring 0 2 op.
 Definition dispatch (op : string) (v : val) : option val :=
   if String.eqb (prefix2 op) "k." then d_kmer op v
   else if String.eqb (substring 0 4 op) "s.k." then d_spec_kmer op v
+  else if existsb (String.eqb op) ["s.filter"; "s.filter_get"; "f.filter"; "chk.filter_rc"]%string then DispatchFilter.d_filter op v
   else None.
